@@ -187,3 +187,24 @@ pub fn tu_obs(fun: &str, x: u32, y: u32, z: u32) -> Option<Obs> {
     });
     if known { Some(o) } else { None }
 }
+
+/// `tu2 <fn> x y z`: the test_util helpers that do not return a short message
+pub fn tu2_obs(fun: &str, x: u32, y: u32, z: u32) -> Option<Obs> {
+    use helgoboss_midi::test_util as t;
+    let mut known = true;
+    let o = guarded(|o| match fun {
+        "u4" => o.n(t::u4(x as u8).get()),
+        "u7" => o.n(t::u7(x as u8).get()),
+        "u14" => o.n(t::u14(x as u16).get()),
+        "channel" => o.n(t::channel(x as u8).get()),
+        "key_number" => o.n(t::key_number(x as u8).get()),
+        "controller_number" => o.n(t::controller_number(x as u8).get()),
+        "control_change_14_bit" => crate::scan::cc14_obs(&t::control_change_14_bit(x as u8, y as u8, z as u16), o),
+        "nrpn" => crate::scan::pn_obs(&t::nrpn(x as u8, y as u16, z as u8), o),
+        "nrpn_14_bit" => crate::scan::pn_obs(&t::nrpn_14_bit(x as u8, y as u16, z as u16), o),
+        "rpn" => crate::scan::pn_obs(&t::rpn(x as u8, y as u16, z as u8), o),
+        "rpn_14_bit" => crate::scan::pn_obs(&t::rpn_14_bit(x as u8, y as u16, z as u16), o),
+        _ => known = false,
+    });
+    if known { Some(o) } else { None }
+}
